@@ -22,4 +22,13 @@ executing whole tasks yields some order) -/
 def runSchedule (run : ι → Nat → ο) (inp : ι) (order : List Nat) : Nat → Option ο :=
   order.foldl (runTask run inp) (fun _ => none)
 
+/-- a serial multi-time-point run: every time point is built, swept and post-processed from the SAME input object, one after the
+other; whatever a time point does to that object is what the next one starts from (state passing) -/
+def serialRun (step : ι → Nat → ο × ι) : ι → List Nat → List ο
+  | _, [] => []
+  | i, t :: ts => let r := step i t; r.1 :: serialRun step r.2 ts
+
+/-- a parallel run: every worker gets its own copy of the input as it was parsed -/
+def parallelRun (step : ι → Nat → ο × ι) (i : ι) (ts : List Nat) : List ο := ts.map fun t => (step i t).1
+
 end Dassh.Model.Repeat
